@@ -139,4 +139,20 @@ def specC12 (w : World) (c : MoveCall) (o : Except GErr MoveOut) : Bool :=
 def specC03Move (w : World) (o : Except GErr MoveOut) : Bool :=
   !w.WInv || (match o with | .ok o => o.post.WInv | .error _ => false)
 
+/-- **C12 / C03** for a call made for ANY agent, active or not (round 6 of the seeded changes: a move that is
+still processed for an agent an attack has taken off the grid).  For an active mover this is `specC12`.  A mover
+that is not active stands in no cell: the call may raise (`Grid.remove` of an agent that is in no cell) or be
+refused, and either way the world is what it was - "a move changes only the mover", and a mover that is not on
+the grid cannot be moved. -/
+def specMoveAny (w : World) (c : MoveCall) (o : Except GErr MoveOut) : Bool :=
+  if (w.stOf c.agent).active then specC12 w c o
+  else match o with
+    | .error _ => true
+    | .ok o => o.post == w
+
+/-- the invariant clause for a call made for any agent -/
+def specC03MoveAny (w : World) (c : MoveCall) (o : Except GErr MoveOut) : Bool :=
+  if (w.stOf c.agent).active then specC03Move w o
+  else !w.WInv || (match o with | .ok o => o.post.WInv | .error _ => true)
+
 end Abmarl
